@@ -65,7 +65,7 @@ class C08(Check):
                    'ended the scope on that connection',
                    'ground truth of the cache = parameter callbacks (Module.addCallback), invoked by frappy inside '
                    'the module update lock; a message is matched to a cache state by its (value, timestamp)']
-    PROBES = ('c08.activate-during-updates', 'c08.deactivate', 'c08.idn', 'c08.close', 'c08.param-scope',
+    PROBES = ('c08.client-stalled', 'net.send-timeout', 'c08.activate-during-updates', 'c08.deactivate', 'c08.idn', 'c08.close', 'c08.param-scope',
               'c08.module-scope')
 
     def gen_case(self, rng, tier):
@@ -164,6 +164,20 @@ class C08(Check):
             # (opc: global activations among the specific ones.  Pre-emption between byte code instructions - a
             # read-modify-write of shared state inside one line - was tried here (kernel option trace_opcodes) and
             # given up: runs did not replay in a fresh interpreter, see DESIGN.md 11)
+        elif rng.random() < 0.12:
+            # focus: a client which stops reading for a few seconds while updates flow (its receive buffer is small):
+            # a send of the node may time out; afterwards the connection is either served or closed
+            ops = [o for o in ops if o['c'] != 0]
+            ops += [{'c': 0, 'kind': 'activate', 'spec': None, 'dt': 0},
+                    {'c': 0, 'kind': 'stall', 'spec': None, 'dt': rng.choice([0, 0.05]),
+                     'buf': rng.choice([64, 150, 400]), 'dur': rng.choice([1.5, 2.5, 4.0])},
+                    {'c': 0, 'kind': rng.choice(['ping', 'activate', 'idn']), 'spec': None, 'dt': 0},
+                    {'c': 0, 'kind': 'ping', 'spec': None, 'dt': 0.1}]
+            m = rng.choice(list(names))
+            pn = rng.choice([p for p in names[m] if p != 'value'] or names[m])
+            shape['updaters'] = list(shape['updaters'])[:2] + [
+                [{'m': m, 'p': pn, 'how': 'assign', 'dt': rng.choice([0.02, 0.1, 0.2])} for _ in range(30)]]
+            shape['stall'] = True
         return {'shape': shape, 'ops': ops}
 
     def shrink_candidates(self, case):
@@ -211,6 +225,12 @@ class C08(Check):
                 if op['dt']:
                     time.sleep(op['dt'])
                 kind = op['kind']
+                if kind == 'stall':
+                    sim.count('c08.client-stalled')
+                    cl.ep.rcvbuf = op['buf']
+                    time.sleep(op['dur'])
+                    cl.ep.rcvbuf = None
+                    continue
                 if kind == 'close':
                     rec['events'].append({'kind': 'close', 'spec': None, 'send_seq': sim.next_seq(),
                                           'nlines': len(cl.lines)})
@@ -225,6 +245,7 @@ class C08(Check):
                 r = cl.request(text, timeout=60)
                 if r is None:
                     ev['reply'] = None
+                    ev['eof'] = cl.eof
                     return
                 ev['reply_seq'], ev['reply_t'], line = r
                 ev['reply'] = line.raw.decode('latin-1')
@@ -360,6 +381,13 @@ class C08(Check):
                 continue
             cl = rec['client']
             lines = cl.lines
+            # a connection is either served or disconnected
+            for ev in rec['events']:
+                if ev['kind'] != 'close' and ev.get('reply') is None and ev.get('eof') is False:
+                    done = ctx['handlers_done'][cl.hidx] if cl.hidx < len(ctx.get('handlers_done', ())) else None
+                    res.append(Violation('C08.no-reply', 'connection-still-open',
+                                         f'conn {cidx}: {ev["kind"]} {ev.get("spec") or ""} got no reply within 60 s '
+                                         f'although the node has not closed the connection (handler finished: {done})'))
             scopes = new_scopes()
             # walk through the events; between events walk through the lines
             boundaries = []     # (line index where it takes effect, 'start'|'end', event)
